@@ -1,0 +1,25 @@
+//go:build verif
+
+// Package verifexport re-exports the doubly-internal witness packages for the
+// verification harness (build tag "verif" only).
+package verifexport
+
+import (
+	ihttp "github.com/google/certificate-transparency-go/internal/witness/cmd/witness/internal/http"
+	"github.com/google/certificate-transparency-go/internal/witness/cmd/witness/internal/witness"
+)
+
+// Witness is the witness implementation.
+type Witness = witness.Witness
+
+// Opts are the witness options.
+type Opts = witness.Opts
+
+// Server is the witness HTTP server.
+type Server = ihttp.Server
+
+// New creates a witness.
+var New = witness.New
+
+// NewServer creates the HTTP server wrapping a witness.
+var NewServer = ihttp.NewServer
